@@ -221,6 +221,9 @@ def one_case(ctx, i, rng):
         fmt, names = FMT_NO_TIME, NO_TIME
         ctx.count('cases_with_pattern_in_time_register')
     setup = setup_text(m0, regs)
+    if m0 == 'logical' and rng.random() < 0.5:
+        # logical units are what a script starts in: no need to say so
+        setup = setup[len('units logical '):]
     tail = ' set "A" on "A" wait'
     script_a = setup + tail
     # a switch may be reached through a routine, a branch or a loop body, so
@@ -252,7 +255,7 @@ def one_case(ctx, i, rng):
     ctx.case('C:{}:{}:{}'.format(m0, sorted(regs.items()), chain),
              nontrivial=real)
     ra = run_script(script_a)
-    rb = run_script(script_b)
+    rb = run_script(script_b, keep_job=True)
     for r, s in ((ra, script_a), (rb, script_b)):
         if not r.accepted:
             ctx.violation('rejected', r.errors.strip() + ' | ' + s, replay)
@@ -285,6 +288,17 @@ def one_case(ctx, i, rng):
                           wa, wb, script_b), replay)
         return
     ctx.count('pairs_agree')
+    if i % 5 == 2:
+        # the same job once more: it starts from the same settings as the
+        # first time, whatever units the first run ended in
+        rc = run_script(script_b, job=rb.job)
+        if rc.stops or transmitted(rc) != transmitted(rb):
+            ctx.violation('metamorphic:second-run-differs',
+                          'first run sent {}, the second run of the same job '
+                          '{} {} | {}'.format(transmitted(rb), transmitted(rc),
+                                              rc.stops[:1], script_b), replay)
+            return
+        ctx.count('second_runs_agree')
     outs = [e[2] for e in rb.log if e[0] == 'out' and e[1] == 'out']
     snaps = [parse_regs(o, names) for o in outs]
     if len(snaps) != len(chain) + 1 or None in snaps:
